@@ -16,6 +16,9 @@ CHECKS = {
     'C08': dict(category='proof', design_ref='DESIGN.md §3 C08', technique=TECH + '; labelled bounded definitional oracle for peptide content',
                 text='The transcript-selection loop of the real call_novel_orf_peptide is proved for all annotations and option values: call_noncoding_peptide_main(tx) is reached iff tx is selected by the options as the property states (coding only with --coding-novel-orf; biotype, proteome and length filters); every peptide goes through VariantPeptidePool.add_peptide with the global canonical pool and the run parameters.',
                 note='Peptide content = three-frame ORF digest minus canonical pool, and ORF FASTA coordinates: bounded oracle on the demo reference over an option lattice only (evidence: coverage.bounded); one known finding (K2) there. call_noncoding_peptide_main is havocked.'),
+    'C10': dict(category='proof', design_ref='DESIGN.md §3 C10', technique=TECH + ' incl. regex-to-window-predicate compilation; labelled bounded digest oracle',
+                text='For all strings of all lengths: each of the 36 regexes of the real EXPASY_RULES dict matches exactly where the ExPASy rule (written as residue sets for P4..P2\') cleaves and consumes one residue; the EXPASY_RULES2 range patterns pair one-to-one and in order with the sites (the inconsistent-sites error is unreachable); iter_enzymatic_cleave_sites yields all rule sites minus exception sites; the six parameters reaching create_unique_peptide_pool in generateIndex/updateIndex/load_references equal the fields of the CleavageParams the pool is registered, looked up and used with.',
+                note='Alphabet A-Z and * assumed; re.finditer / regex overlapped=True semantics assumed (cross-checked natively). The miscleavage loops of enzymatic_cleave and create_unique_peptide_pool are covered by the bounded digest / pool oracle only (evidence: coverage.bounded), not proved.'),
 }
 
 _PENDING = 'contracts for this property are not built yet in this revision (planned: see DESIGN.md §3); not claimed until they discharge'
